@@ -416,6 +416,7 @@ def run_r4b(ctx, rule):
     sy = sym(wf)
     arrays = set(i for i, l in enumerate(wf.locals) if l.get("array") == "u8" and l.get("refs", 0) == 0)
     n_cont = n_last = 0
+    final_vals = []
     for bi, b in enumerate(wf.blocks):
         for s in b["stmts"]:
             if s["k"] != "assign" or s["lhs"]["l"] not in arrays or not any(isinstance(q, dict) and ("index" in q or "cidx" in q) for q in s["lhs"]["p"]):
@@ -429,9 +430,34 @@ def run_r4b(ctx, rule):
                 rule.ok("write_binary_uint: the last group is masked with 0x7f", wf.loc(bi))
                 continue
             v = e[2] if e[0] == "cast" else e
+            final_vals.append((bi, v))
             g = guards.holds(wf, bi, lambda fa: fa[0] == "cmp" and (fa[1] == "Lt" and fa[3] == ("c", 128) and strip_bb(fa[2]) == strip_bb(v) or fa[1] == "Le" and fa[3] == ("c", 127) and strip_bb(fa[2]) == strip_bb(v) or fa[1] == "Gt" and fa[2] == ("c", 128) and strip_bb(fa[3]) == strip_bb(v) or fa[1] == "Ge" and fa[2] == ("c", 127) and strip_bb(fa[3]) == strip_bb(v)))
             n_last += 1
             rule.check(bool(g), "varint/last-group-clear", "write_binary_uint: a group written without the continuation bit holds a value known to be < 0x80 (%s)" % (guards.show_fact(wf, g[1]) if g else "no dominating fact value < 0x80 for %s" % sy.show(v)), wf.loc(bi))
+    # completeness: when the bytes are handed to the writer nothing of the value is left over -- either the
+    # remaining value is known to be zero, or the final group is the remaining value itself (then < 0x80, above)
+    shifted = set()
+    for bi, b in enumerate(wf.blocks):
+        for s in b["stmts"]:
+            if s["k"] == "assign" and not s["lhs"]["p"] and s["rv"]["k"] == "bin" and s["rv"]["op"].replace("Unchecked", "") == "Shr":
+                shifted.add(s["lhs"]["l"])
+    outs = [bb for bb, t in wf.calls() if norm(util.cname(t)).endswith("DeferredWriter::write_all_defer_err")]
+    c = cfg(wf)
+    for bb in outs:
+        how = None
+        for l in shifted:
+            g = guards.holds(wf, bb, lambda fa: fa[0] == "cmp" and fa[1] == "Eq" and fa[2] == ("l", l) and fa[3] == ("c", 0))
+            if g:
+                # the guard still describes `l` at bb: no assignment to l in a block strictly between (dominated by the guard, reaching bb)
+                redefs = [d[1] for d in sy.defs.get(l, []) if d[1] != g[0] and c.dominates(g[0], d[1]) and c.dominates(d[1], bb)]
+                if not redefs:
+                    how = "remaining value == 0 on exit (%s)" % guards.show_fact(wf, g[1])
+            for fb in final_vals:
+                if fb[1] == ("l", l) and c.dominates(fb[0], bb) and not [d for d in sy.defs.get(l, []) if d[1] != fb[0] and c.dominates(fb[0], d[1]) and c.dominates(d[1], bb)]:
+                    how = "the final group is the remaining value itself"
+        rule.check(how is not None, "varint/complete", "write_binary_uint: every bit of the value has been emitted when the groups are written out (%s)" % (how or "no exit fact `remaining == 0` and the final group is not the remaining value"), wf.loc(bb))
+    if not outs or not shifted:
+        rule.bad("varint/complete-anchor", "anchor missing: shifted value / write_all_defer_err in write_binary_uint", kind="anchor-missing")
     rule.check(n_cont >= 1 and n_last >= 1, "varint/group-forms", "write_binary_uint emits continuation groups (| 0x80) and a final group with the bit clear (%d / %d stores)" % (n_cont, n_last), wf.loc())
     # shift by 7 on both sides, reader tests bit 0x80 and keeps 0x7f
     def consts(f, op):
@@ -605,7 +631,7 @@ def run(ctx):
     run_r3(ctx, r3)
     r4 = ctx.rule("C03-R4", "binary varint: the reader accepts every length the writer can emit", floor=2)
     run_r4(ctx, r4)
-    r4b = ctx.rule("C03-R4b", "binary varint: continuation-bit protocol (writer's last group < 0x80, same shift and masks as the reader)", floor=4)
+    r4b = ctx.rule("C03-R4b", "binary varint: continuation-bit protocol (writer's last group < 0x80, all bits emitted, same shift and masks as the reader)", floor=5)
     run_r4b(ctx, r4b)
     r5 = ctx.rule("C03-R5", "AIGER header: fields parsed in the written order; optional tail agrees (5 required fields)", floor=6)
     run_r5(ctx, r5)
